@@ -41,7 +41,8 @@ CHECKS["C13"] = {
                   "0 s and 1 s (a gap of n seconds is n steps), depth 6 (thorough 8) where the search does not close "
                   "earlier; trusts the reference (self-tested at every start against an independent evaluation of the "
                   "documented value-list syntax and hand traces), the interposed time() and the canonical abstraction, "
-                  "which is cross-checked on every run by re-executing all histories up to depth 4 without pruning",
+                  "which is cross-checked on every run by re-executing all histories up to depth 4 without pruning (a self-test "
+                  "that ends the harness only when no monitored rule fired for the configuration)",
     "technique": "explicit-state model checking of the real condition/message objects under a virtual clock against a reference predicate on the last stored value",
     "rule": "configuration = family (simple, alternative definitions under complementary conditions, AND of two on one or "
             "two messages, derived on the fly [k=..]/[k<..]/[k>=..] from a defined condition with or without values, scan "
@@ -53,7 +54,10 @@ CHECKS["C13"] = {
             "give the opposite verdict for at least one stored vector of every shape, self-tested; combined and derived "
             "conditions over filler layouts too; 5 layouts where the referenced message is defined WITHOUT destination "
             "address and the condition supplies ZZ, so that ebusd derives a per-address clone which receives the bus data "
-            "- simple, alternative, derived and combined conditions incl. two conditions sharing one clone) x field reference (each named field of the right kind, of the wrong kind, unnamed, a "
+            "- simple, alternative, derived and combined conditions incl. two conditions sharing one clone; 4-byte numeric "
+            "fields (ULG) with the value alphabet {2, 65535, 65536, 4294967294} and six shapes over it; two definitions guarded "
+            "by two conditions derived from ONE base (different lists, the same list twice, base next to derived); files "
+            "with one unresolvable condition that guards nothing next to a resolvable one, in both name orders) x field reference (each named field of the right kind, of the wrong kind, unnamed, a "
             "missing name, missing message). Per resolvable configuration: BFS over histories of S<m>:<v> (store value "
             "vector v of message m: the judged field takes alphabet value v, every other field a rotated value so that a "
             "wrong field gives a wrong verdict), T (clock +1 s), Q (isAvailable, find by name, find by telegram). A state "
@@ -62,7 +66,8 @@ CHECKS["C13"] = {
             "checked at all) + reference state; the canonical state is asserted to be reproduced on replay. Oracle at Q: "
             "available iff every part is satisfied by the most recently stored value (never stored: not available; "
             "without values: stored at least once); find() returns the guarded definition iff available (the "
-            "alternative one iff its complementary condition holds). Oracle at load: resolveConditions succeeds iff "
+            "alternative one iff its complementary condition holds). Rule change-time: after every store the referenced "
+            "message's getLastChangeTime() is the virtual time of its last value change. Oracle at load: resolveConditions succeeds iff "
             "message and field of the required kind exist; an ignored filler is not a field ('first field' = first field "
             "that is not ignored); unnamed with a first field of the other kind is not judged (statement open). states = distinct (configuration, canonical state); transitions = operations executed on "
             "the real objects incl. replays; traces validated = judged queries + judged resolutions; distinct = states "
@@ -78,9 +83,9 @@ CHECKS["C13"] = {
         "deps": ["engines/msgmc/c13_config.h"],
         "variant": "plain", "libset": "core",
         "quick": {"parts": 16, "args": ["--depth", 6], "deadline": 400,
-                  "bounds": "1550 configurations (incl. address-less referenced messages, filler / master-part layouts), depth 6, alphabet of 4 values per field, cross-check depth 4"},
+                  "bounds": "1630 configurations (incl. address-less referenced messages, filler / master-part layouts), depth 6, alphabet of 4 values per field, cross-check depth 4"},
         "thorough": {"parts": 16, "args": ["--depth", 8], "deadline": 900,
-                     "bounds": "2324 configurations (adds two-byte numeric fields and more filler layouts), depth 8, cross-check depth 4"},
+                     "bounds": "2473 configurations (adds two-byte numeric fields and more filler layouts), depth 8, cross-check depth 4"},
     }],
 }
 
@@ -104,7 +109,7 @@ CHECKS["C17"] = {
                   "every start: the ideal virtual-time algorithm passes from every legal start offset with either "
                   "tie-break, hand-made unfair schedules are rejected) and the canonical abstraction, which is validated on "
                   "every run: every revisit of a canonical state re-runs the unperturbed run and must reproduce the "
-                  "selection sequence of the first visit; the depth of the design (6/8) is reached only for the core "
+                  "selection sequence of the first visit (self-test: ends the harness only when no rule fired for the configuration); the depth of the design (6/8) is reached only for the core "
                   "configuration and only to 7 in the thorough tier because every history costs a fork",
     "technique": "explicit-state model checking of the real poll queue: BFS over operation histories in forked processes with canonical states, unperturbed fairness run from every state",
     "rule": "configuration = number of message slots x initial priority per slot (1,2,3,9, defined without priority, not "
@@ -117,7 +122,11 @@ CHECKS["C17"] = {
             "history replayed on freshly loaded objects in a forked child; canonical state = per message (priority, "
             "pollOrder relative to the smallest, tie-break value: insertion counter verbatim / dense rank of poll times) + "
             "g_lastPollOrder relative + order of the queue vector; asserted to be reproduced on replay. Oracle on the "
-            "unperturbed run of T=40*sum(p) selections from each state: (W) no message waits more than "
+            "unperturbed run of T=40*sum(p) selections from each state: (P) after the load and after every operation getPollPriority() of every message is "
+            "the REQUESTED priority (digit of the r<p> type, argument of setPollPriority; the reference uses the requested one) and "
+            "(Q) the queue holds exactly the defined messages with a priority, each once (no dangling entry, no duplicate, none "
+            "missing; judged by pointer comparison before anything is polled; such a state is reported and not expanded); "
+            "(W) no message waits more than "
             "sum_{j!=m}(ceil(p_m/p_j)+2) selections (start, between two selections, end), (F) |n_i - T*(1/p_i)/sum(1/p_j)| "
             "<= 3, (E) equal priorities differ by at most 2, plus: a message with a priority must be returned whenever "
             "one exists. Periodically perturbed runs from every state of depth <= 2 (thorough 3; 4 messages 2) of the core "
